@@ -153,6 +153,11 @@ class Scenario:
                             cb = obj.scheduled_event_trigger(SEv)
                             cb(time.time() - 1)
                             obj.send(0)
+                        elif name == "stray_sigint":
+                            # Ctrl-C between two requests: the Input's handler records it; the body never asks again
+                            os.kill(os.getpid(), signal.SIGINT)
+                            for _ in range(20):
+                                pass
                         elif name == "blocked_sigint":
                             # SIGINT from another thread at an arbitrary moment of a blocked request
                             t = threading.Timer(st.get("delay", 0.03), lambda: os.kill(os.getpid(), signal.SIGINT))
@@ -333,6 +338,12 @@ class C12(TraceCheck):
                     yield [init, E("Input", sigint=sig), OP("request"), X, E("Input", sigint=sig), OP("request"), X,
                            E("Input", sigint=sig), OP("trigger"), X]
                 yield [init, E("Nonblocking"), E("Input"), OP("request"), X, X]
+                if main:
+                    # a SIGINT that the Input's own handler recorded between requests and that no request returned
+                    for end in (X, R):
+                        yield [init, E("Input", sigint=1), OP("request"), OP("stray_sigint"), end]
+                        yield [init, E("Input", sigint=1), OP("stray_sigint"), OP("stray_sigint"), OP("request"), end]
+                        yield [init, E("Cbreak"), E("Input", sigint=1, nostart=1), OP("request_key"), OP("stray_sigint"), end, X]
                 # the calling thread has SIGINT (and SIGWINCH) blocked before anything is entered
                 for m0 in (1, 2):
                     im = dict(init, mask0=m0)
@@ -391,7 +402,7 @@ class C12(TraceCheck):
         default_handler = signal.default_int_handler
         # the SIGINT disposition in force before anything is entered: Python's default handler, SIG_DFL,
         # SIG_IGN or an application handler (never SIG_DFL/SIG_IGN when the scenario sends a real SIGINT)
-        real_sigint = any(st.get("name") == "blocked_sigint" for st in hist)
+        real_sigint = any(st.get("name") in ("blocked_sigint", "stray_sigint") for st in hist)
         C12._count += 1
         choice = hist[0].get("sig0") or ["default", "dfl", "user", "ign"][C12._count % 4]
         if real_sigint or not main:
